@@ -192,6 +192,9 @@ class C04(Prop):
                 form = rng.choice(["scalar", "scalar_rev", "nd"])
                 c = {"op": "binop", "form": form, "operator": op, "arrays": [gen.clean(arr)], "small": True,
                      "scalar": rng.choice([2, 3, 2.5, 0.5]) if op != "pow" else rng.choice([2, 3])}
+                if form != "nd" and rng.random() < 0.5:
+                    # NumPy scalars (what a.mean() or a.values[0] return) and 0-d arrays are scalars too
+                    c["scalar_type"] = rng.choice(["float64", "float32", "nd0"] + (["int64", "int32"] if float(c["scalar"]).is_integer() else []))
                 if form == "nd":
                     shape = [len(a["labels"]) for a in arr["axes"]]
                     k = rng.randint(0, len(shape))
@@ -207,7 +210,8 @@ class C04(Prop):
         if c["form"] == "arrays":
             return a, build(c, 1)
         if c["form"] in ("scalar", "scalar_rev"):
-            return a, c["scalar"]
+            t = c.get("scalar_type")
+            return a, (c["scalar"] if not t else np.array(float(c["scalar"])) if t == "nd0" else getattr(np, t)(c["scalar"]))
         nd = (np.arange(int(np.prod(c["ndshape"])) if c["ndshape"] else 1, dtype=float) % 3 + 1).reshape(c["ndshape"])
         return a, nd
 
@@ -309,7 +313,7 @@ class C04(Prop):
 
     def features(self, c, io):
         return {"outcome": "err:" + io["err"] if "err" in io else "ok", "form": c["form"], "operator": c["operator"],
-                "small": c.get("small", False), "ranks": "%d,%d" % (len(c["arrays"][0]["axes"]), len(c["arrays"][1]["axes"]) if len(c["arrays"]) > 1 else -1)}
+                "small": c.get("small", False), "scalar_type": c.get("scalar_type") or ("python" if c["form"].startswith("scalar") else "-"), "ranks": "%d,%d" % (len(c["arrays"][0]["axes"]), len(c["arrays"][1]["axes"]) if len(c["arrays"]) > 1 else -1)}
 
     def size(self, c):
         return sum(len(ax["labels"]) + 5 for a in c["arrays"] for ax in a["axes"])
